@@ -303,6 +303,19 @@ pub fn generate(rng: &mut Rng) -> Workload {
         types.push_str(&format!("enum EN{}\n{{\n{}\n}};\nuint enum_probe{}() {{ return {}; }}\n", e, parts.join("\n"), e, probe.join(" + ")));
     }
 
+    // a struct with several base types (one workload in three): the inherited members arrive in the order of the base list
+    let n_bases = if rng.chance(1, 3) { 2 + rng.below(4) } else { 0 };
+    if n_bases > 0 {
+        let mut reads = Vec::new();
+        for b in 0..n_bases {
+            types.push_str(&format!("struct Base{}\n{{\n    uint b{}_lo;\n    uint b{}_hi;\n}};\n", b, b, b));
+            reads.push(format!("d.b{}_lo * {}u + d.b{}_hi", b, b + 2, b));
+        }
+        let list: Vec<String> = (0..n_bases).map(|b| format!("Base{}", b)).collect();
+        let writes: String = (0..n_bases).map(|b| format!("    d.b{}_lo = x + {}u;\n    d.b{}_hi = x ^ {}u;\n", b, b, b, b + 7)).collect();
+        types.push_str(&format!("struct Derived : {}\n{{\n    uint own;\n}};\nuint bases_probe(uint x)\n{{\n    Derived d;\n{}    d.own = x;\n    return d.own + {};\n}}\n", list.join(", "), writes, reads.join(" + ")));
+    }
+
     // ---- static / groupshared globals -----------------------------------------------------------
     let n_static = 5 + rng.below(5);
     let mut static_names: Vec<&str> = STATIC_NAMES.to_vec();
@@ -621,6 +634,9 @@ pub fn generate(rng: &mut Rng) -> Workload {
     main_text.push_str("void Main(uint3 dtid : SV_DispatchThreadID) {\n    uint r = dtid.x;\n");
     if wave_depth > 0 {
         main_text.push_str("    r += wave_level0(r);\n");
+    }
+    if n_bases > 0 {
+        main_text.push_str("    r += bases_probe(r);\n");
     }
     for c in 0..n_chains {
         main_text.push_str(&format!("    r += {}(ADD(r, {}));\n", fn_ref(c, 0), lit(rng, n_const)));
